@@ -1,6 +1,7 @@
 package ccrypto
 
 import (
+	"bytes"
 	"encoding/hex"
 	"fmt"
 	"github.com/jcmturner/gokrb5/v8/crypto"
@@ -240,8 +241,66 @@ func RunC06(c *engine.Ctx) {
 	c.Cov["reference_accepts"] = refAccepts
 	siblingEtypes(c)
 	keyBufferHistories(c)
+	malformedKeys(c)
 	concurrentSchedules(c, "C06")
 	c.Cov["rule"] = "key-buffer histories (one key buffer overwritten in place between calls: a ciphertext of the key that was in the buffer before must not decrypt, the current key's must), every order of 2 keys over 6 steps x 4 usages x encrypt-first / decrypt-first; for etype(6) x plaintext length 0..64: every single-bit flip, every truncation, appended/prepended bytes, every swap of two aligned blocks, every other usage of the usage set and a dense sweep 1..1200 (rc4: modulo RFC 4757 aliases), the full made-under x presented-under matrix for usages 0..32 and 127/128/255/256, flips and truncations under usage 0, each through the etype method and (for a third of the cases and all substitutions) crypto.DecryptMessage and crypto.DecryptEncPart, 3 unrelated keys, same key under each other etype of equal key length; distinct = (etype, mutation class) pairs that were exercised and rejected"
+}
+
+// malformedKeys: keys of a length the etype does not have (nil, empty, short, long). Decryption under such a key yields
+// an error and no plaintext - for a genuine ciphertext of a real key, and for whatever the library itself produces when
+// asked to encrypt under another malformed key (if it does not refuse that, the two "keys" are still different keys).
+func malformedKeys(c *engine.Ctx) {
+	r := rand.New(rand.NewSource(c.Seed + 8))
+	for _, et := range rcrypto.Etypes {
+		p, _ := rcrypto.Get(et)
+		g := goET(et)
+		good := keys(et, 1, c.Seed+3)[0]
+		pt := randBytes(r, 24)
+		genuine, _ := rcrypto.EncryptWithConfounder(et, good, 11, randBytes(r, p.Conf), pt)
+		if et == rcrypto.RC4 {
+			continue // rc4-hmac keys are HMAC keys: every length is usable, and keys differing in trailing zero octets are the same key
+		}
+		bads := [][]byte{nil, {}, randBytes(r, 5), randBytes(r, 15), randBytes(r, p.KeyLen-1), randBytes(r, p.KeyLen+1), randBytes(r, 33)}
+		for i, a := range bads {
+			cs := c06case{Etype: et, Len: len(pt), Usage: 11, Key: hex.EncodeToString(a), Mutation: fmt.Sprintf("key of %d octets (etype needs %d)", len(a), p.KeyLen)}
+			c.Add("evaluations", 1)
+			var out []byte
+			var err error
+			if pn := safely(func() { out, err = g.DecryptMessage(a, append([]byte{}, genuine...), 11) }); pn != "" {
+				c.Violate("malformed", fmt.Sprintf("panic:et%d:malformed-key", et), map[string]interface{}{"panic": pn}, cs)
+				continue
+			}
+			if err == nil || len(out) != 0 {
+				c.Violate("malformed", fmt.Sprintf("accepted:et%d:genuine-ciphertext-under-malformed-key", et), map[string]interface{}{"plaintext_returned": len(out)}, cs)
+				continue
+			}
+			// what the library makes under this malformed key, offered under each other malformed key
+			var forged []byte
+			var eerr error
+			if pn := safely(func() { _, forged, eerr = g.EncryptMessage(a, append([]byte{}, pt...), 11) }); pn != "" || eerr != nil || len(forged) == 0 {
+				c.Distinct(fmt.Sprintf("malformed/%d/%d/refused", et, i))
+				continue
+			}
+			bad := false
+			for j, b := range bads {
+				if j == i || bytes.Equal(a, b) {
+					continue
+				}
+				c.Add("evaluations", 1)
+				var o2 []byte
+				var e2 error
+				if pn := safely(func() { o2, e2 = g.DecryptMessage(b, append([]byte{}, forged...), 11) }); pn == "" && (e2 == nil || len(o2) != 0) {
+					cs.AltKey = hex.EncodeToString(b)
+					c.Violate("malformed", fmt.Sprintf("accepted:et%d:ciphertext-of-one-malformed-key-under-another", et), map[string]interface{}{"plaintext_returned": len(o2)}, cs)
+					bad = true
+					break
+				}
+			}
+			if !bad {
+				c.Distinct(fmt.Sprintf("malformed/%d/%d/encrypts", et, i))
+			}
+		}
+	}
 }
 
 // keyBufferHistories: the caller keeps its key in one buffer and overwrites it in place with another key between
